@@ -197,8 +197,8 @@ def make_harness(text, want_native=True, log=None):
         return None, ('rejected', r['stderr'])
     gen = r['generated']; lex = r['lexer']
     toks = token_names_from_lexer(lex)
-    parts = re.findall(r'pub fn parse_(\w+)\(mut self', gen)
-    eofs = re.findall(r'self\.end_of_input = Token::(EOF\w+);', gen)
+    parts = sorted(re.findall(r'pub fn parse_(\w+)\(mut self', gen))
+    eofs = sorted(re.findall(r'self\.end_of_input = Token::(EOF\w+);', gen))
     rule_names = re.findall(r'fn create_node_(\w+)\(&mut self, _node_ref', gen)
     del_names = re.findall(r'fn delete_node_(\w+)\(&mut self, _node_ref', gen)
     preds = re.findall(r'fn (predicate_\w+)\(&self\) -> bool;', gen)
